@@ -19,7 +19,7 @@ EXPLANATION = (
     'these shapes: KEEPALIVEs arriving at intervals <= L keep now-last <= L at every check (no false timeout), and '
     'silence > 2L spans a full sleep of L after the last receipt, so the next check sees now-last > L. The checker '
     'verifies the shapes, not the bounds; periods as run-time facts are not decided.')
-EXPLANATION_ADDED = ('The sender calls the _before_sender/_finally_sender hooks in which the client starts and stops its keepalive task; KEEPALIVE frames reach handle_keep_alive (dispatch row and routing).')
+EXPLANATION_ADDED = ('The sender calls the _before_sender/_finally_sender hooks in which the client starts and stops its keepalive task; KEEPALIVE frames reach handle_keep_alive (dispatch row and routing). No call of a library coroutine function is dropped as a statement or returned un-awaited from another coroutine function (C15.d): the call-backs the library awaits - keepalive timeout included - reach the application through the handler adapters.')
 EXPLANATION = EXPLANATION.replace(' Not decided', ' ' + EXPLANATION_ADDED + ' Not decided', 1) \
     if ' Not decided' in EXPLANATION else EXPLANATION + ' ' + EXPLANATION_ADDED
 ASSUMPTIONS = COMMON_ASSUMPTIONS
@@ -252,4 +252,11 @@ def rule_dispatch(ctx):
     dispatch.rule_routing(ctx, 'C01.e', only=['KeepAliveFrame'])
 
 
-RULES = [('C15.a', rule_a), ('C15.b', rule_b), ('C15.c', rule_c), ('C15.b', rule_plumbing), ('C01.e', rule_dispatch)]
+def rule_coroutines(ctx):
+    """Every coroutine the library creates is run: the keepalive-timeout (and every other) call-back reaches the
+    application through the handler adapters only if the adapter awaits the delegate (rules/binding.py)."""
+    from .binding import rule_coroutines_run
+    rule_coroutines_run(ctx, 'C15.d', ['rsocket', 'reactivestreams'], 'library coroutine calls')
+
+
+RULES = [('C15.a', rule_a), ('C15.b', rule_b), ('C15.c', rule_c), ('C15.b', rule_plumbing), ('C01.e', rule_dispatch), ('C15.d', rule_coroutines)]
